@@ -8,6 +8,7 @@ package c11
 import (
 	"encoding/json"
 	"fmt"
+	"math/rand"
 	"os"
 	"strings"
 	"testing"
@@ -144,57 +145,78 @@ func TestC11(t *testing.T) {
 				if len(perm) == 0 {
 					continue // the empty permutation is the separate no-op rule
 				}
-				m := &pipeline.Matrix{Setup: pipeline.MatrixSetup{}}
-				for d, l := range setup {
-					m.Setup[d] = append(make([]string, 0), l...) // an empty dimension is a known dimension
-				}
-				for _, a := range adjs {
-					if a.null {
-						m.Adjustments = append(m.Adjustments, nil)
-						continue
-					}
-					w := pipeline.MatrixAdjustmentWith{}
-					for d, v := range a.with {
-						w[d] = v
-					}
-					m.Adjustments = append(m.Adjustments, &pipeline.MatrixAdjustment{With: w, Skip: a.skip})
-				}
-				step := &pipeline.CommandStep{Command: "echo {{matrix}}", Label: "l", Matrix: m, Env: map[string]string{"K": "v"}}
-				before, _ := json.Marshal(step)
-				p := pipeline.MatrixPermutation{}
-				for d, v := range perm {
-					p[d] = v
-				}
-				var err error
-				func() {
-					defer func() {
-						if r := recover(); r != nil {
-							err = fmt.Errorf("panic: %v", r)
-							failures++
-							t.Errorf("setup %v adjs %v perm %v: panic %v", setup, adjs, perm, r)
-						}
-					}()
-					err = step.InterpolateMatrixPermutation(p)
-				}()
-				cases++
-				want := spec(setup, adjs, perm)
-				// an accepted permutation may still fail to interpolate ({{matrix}} on named dimensions)
-				accepted := err == nil || !isValidationError(err)
-				if accepted != want {
-					failures++
-					if failures < 12 {
-						t.Errorf("setup %v adjustments %v permutation %v: accepted=%v (err=%v), specification says %v", setup, adjs, perm, accepted, err, want)
-					}
-				}
-				if !accepted {
-					after, _ := json.Marshal(step)
-					if string(before) != string(after) {
-						failures++
-						t.Errorf("rejected permutation modified the step: %s -> %s", before, after)
-					}
-				}
+				runCase(t, setup, adjs, perm, &cases, &failures)
 			}
 		}
+	}
+	// beyond the exhaustive scope: up to three named dimensions, 0-3 values each, up to four adjustments
+	// (well formed, wrong arity, unknown dimension, null), permutations drawn from the setup, from an
+	// adjustment, or at random
+	rounds := 20000
+	if thorough {
+		rounds = 400000
+	}
+	var sd int64 = 1
+	fmt.Sscan(os.Getenv("VERIF_SEED"), &sd)
+	r := rand.New(rand.NewSource(sd))
+	names := []string{"os", "arch", "zz", "x.y-z_1"}
+	values := []string{"a", "b", "c", "", "{{matrix.os}}"}
+	for i := 0; i < rounds; i++ {
+		nd := 1 + r.Intn(3)
+		var ds []string
+		for _, j := range r.Perm(len(names))[:nd] {
+			ds = append(ds, names[j])
+		}
+		setup := map[string][]string{}
+		for _, d := range ds {
+			l := []string{}
+			for k := r.Intn(4); k > 0; k-- {
+				l = append(l, values[r.Intn(len(values))])
+			}
+			setup[d] = l
+		}
+		tuple := func(mode int) map[string]string {
+			w := map[string]string{}
+			for _, d := range ds {
+				if l := setup[d]; mode == 0 && len(l) > 0 {
+					w[d] = l[r.Intn(len(l))]
+				} else {
+					w[d] = values[r.Intn(len(values))]
+				}
+			}
+			switch r.Intn(12) {
+			case 0:
+				delete(w, ds[r.Intn(len(ds))]) // wrong arity
+			case 1:
+				delete(w, ds[r.Intn(len(ds))])
+				w["nope"] = "a" // right arity, unknown dimension
+			case 2:
+				w["extra"] = "a"
+			}
+			return w
+		}
+		var adjs []adj
+		for k := r.Intn(5); k > 0; k-- {
+			if r.Intn(15) == 0 {
+				adjs = append(adjs, adj{null: true})
+				continue
+			}
+			adjs = append(adjs, adj{with: tuple(r.Intn(2)), skip: skips[r.Intn(len(skips))]})
+		}
+		var perm map[string]string
+		if len(adjs) > 0 && r.Intn(2) == 0 {
+			a := adjs[r.Intn(len(adjs))]
+			perm = map[string]string{}
+			for d, v := range a.with {
+				perm[d] = v
+			}
+		} else {
+			perm = tuple(r.Intn(2))
+		}
+		if len(perm) == 0 {
+			continue
+		}
+		runCase(t, setup, adjs, perm, &cases, &failures)
 	}
 	// the empty permutation is a no-op without a matrix
 	s := &pipeline.CommandStep{Command: "c"}
@@ -204,6 +226,59 @@ func TestC11(t *testing.T) {
 	}
 	cases++
 	fmt.Printf("BOUNDED name=c11-permutations cases=%d failures=%d\n", cases, failures)
+}
+
+// runCase applies one permutation to a fresh step carrying the matrix and compares the outcome with spec.
+func runCase(t *testing.T, setup map[string][]string, adjs []adj, perm map[string]string, cases, failures *int) {
+	m := &pipeline.Matrix{Setup: pipeline.MatrixSetup{}}
+	for d, l := range setup {
+		m.Setup[d] = append(make([]string, 0), l...) // an empty dimension is a known dimension
+	}
+	for _, a := range adjs {
+		if a.null {
+			m.Adjustments = append(m.Adjustments, nil)
+			continue
+		}
+		w := pipeline.MatrixAdjustmentWith{}
+		for d, v := range a.with {
+			w[d] = v
+		}
+		m.Adjustments = append(m.Adjustments, &pipeline.MatrixAdjustment{With: w, Skip: a.skip})
+	}
+	step := &pipeline.CommandStep{Command: "echo {{matrix}}", Label: "l", Matrix: m, Env: map[string]string{"K": "v"}}
+	before, _ := json.Marshal(step)
+	p := pipeline.MatrixPermutation{}
+	for d, v := range perm {
+		p[d] = v
+	}
+	var err error
+	func() {
+		defer func() {
+			if r := recover(); r != nil {
+				err = fmt.Errorf("panic: %v", r)
+				*failures++
+				t.Errorf("setup %v adjs %v perm %v: panic %v", setup, adjs, perm, r)
+			}
+		}()
+		err = step.InterpolateMatrixPermutation(p)
+	}()
+	*cases++
+	want := spec(setup, adjs, perm)
+	// an accepted permutation may still fail to interpolate ({{matrix}} on named dimensions)
+	accepted := err == nil || !isValidationError(err)
+	if accepted != want {
+		*failures++
+		if *failures < 12 {
+			t.Errorf("setup %v adjustments %v permutation %v: accepted=%v (err=%v), specification says %v", setup, adjs, perm, accepted, err, want)
+		}
+	}
+	if !accepted {
+		after, _ := json.Marshal(step)
+		if string(before) != string(after) {
+			*failures++
+			t.Errorf("rejected permutation modified the step: %s -> %s", before, after)
+		}
+	}
 }
 
 func isValidationError(err error) bool {
